@@ -3,6 +3,7 @@ tier, and how their scenarios are replayed / their traces validated."""
 import hashlib
 import json
 import os
+import random
 
 from common import *  # noqa
 
@@ -1071,10 +1072,25 @@ def c10(tier, seed):
 
 
 def c18(tier, seed):
-    t = run_tlc("MC_Prims", {}, invariants=["Laws"], name="c18-prims", workers=1, timeout=600)
+    rnd = random.Random(seed * 7919 + 18)
+    all_rl, all_rn = set(), set()
+
+    def emit():
+        # seed-derived extras, redrawn every few rounds; some lengths are drawn per size class and per alignment so that
+        # short and long, aligned and unaligned classes are all met
+        rl = sorted({rnd.randrange(0, 65520) for _ in range(3)} | {rnd.randrange(2 ** b, 2 ** (b + 1)) for b in (4, 7, 9, 11, 13)}
+                    | {64 * rnd.randrange(1, 1000), 16 * rnd.randrange(1, 4000)})
+        rn = sorted({"%016x" % rnd.getrandbits(64) for _ in range(3)} | {"%016x" % rnd.getrandbits(rnd.choice((20, 36, 52)))})
+        all_rl.update(rl)
+        all_rn.update(rn)
+        return run_tlc("MC_Prims", dict(RandLens=rl, RandNonces=rn), invariants=["Laws"], name="c18-prims", workers=1,
+                       timeout=600)
+    t = emit()
     rounds = 6 if tier == "quick" else 400
     viol, evals, distinct, samples = [], 0, 0, []
     for k in range(rounds):
+        if k and k % (2 if tier == "quick" else 10) == 0:
+            t = emit()
         resf = os.path.join(WORK, "c18-prims", "result.json")
         rc, out = harness(["prims", "--cases", t["out"], "--seed", str(seed * 1000 + k), "--result", resf,
                            "--replay-dir", REPLAYS])
@@ -1089,12 +1105,13 @@ def c18(tier, seed):
                explanation="structural layer only: HMAC/HKDF as term rewriting over a raw hash, AEAD law + nonce encodings, "
                            "REKEY, DH commutativity, key-pair consistency; the numeric cores of the third-party primitive "
                            "crates are the trusted base (cross-checked RustCrypto vs ring, RFC 4231/7748 vectors, Cacophony anchor)",
-               rule="TLC (spec/MC_Prims.tla) checks the AEAD and DH laws on the terms and emits 513 cases: HMAC for key lengths "
+               rule="TLC (spec/MC_Prims.tla) checks the AEAD and DH laws on the terms and emits some 700 cases: HMAC for key lengths "
                     "{0,1,31,32,33,63,64,65,127,128} x data lengths {0,1,55,56,63,64,65,111,112,127,128,129,300}; HKDF with 1/2/3 "
                     "outputs x ikm lengths {0,1,32,56,65,300} as EXPANDED terms over the raw hash (ipad/opad, counter bytes, "
                     "chaining); AEAD for 16 nonces with every byte position of the counter set x ad/plaintext lengths up to "
                     "65519, each with 9 must-reject alterations (other key/nonce/ad, 4 flipped bytes incl. tag, nonce + 2^32, "
-                    "nonce with top bit flipped); REKEY; DH public keys, shared secrets, commutativity, 12 arbitrary peer "
+                    "nonce with top bit flipped); plus, per run, seed-derived lengths "
+                    f"{sorted(all_rl)[:30]} ({len(all_rl)} in all; ad and plaintext; HMAC data) under seed-derived counters {sorted(all_rn)[:12]} ({len(all_rn)} in all), redrawn every few rounds; REKEY; DH public keys, shared secrets, commutativity, 12 arbitrary peer "
                     "strings; key generation. Each case is run through the public trait methods of the objects returned by "
                     "DefaultResolver and RingResolver (all 4 hashes, 3 ciphers, 2 curves) with fresh random keys/data per "
                     "round; distinct = distinct (backend, primitive, operation, lengths/nonce) combinations",
